@@ -45,7 +45,8 @@ type c12Knobs struct {
 	ReqCtx       bool   `json:"requested_authn_context"`
 	EntityID     string `json:"entity_id"` // "" = unset (metadata URL is the entity ID)
 	AltStream    uint64 `json:"alt_rand_stream"`
-	SensStep     int    `json:"sensitivity_step"` // creation whose ID is probed byte by byte (-1: none)
+	SensStep     int    `json:"sensitivity_step"`           // creation whose ID is probed byte by byte (-1: none)
+	ShortReads   int    `json:"rand_short_reads,omitempty"` // the configured random source returns at most this many bytes per Read (0: fills the buffer)
 }
 
 type c12Step struct {
@@ -181,6 +182,7 @@ func genSPEgress(g *Rng, tier string) *Plan {
 		ReqCtx:       g.Bool(0.4),
 		EntityID:     Pick(g, "", "", "https://sp.example.com/entity", "https://sp.example.com/entity?a=1&b=2", "urn:example:sp:é<1>"),
 		AltStream:    100 + uint64(g.Intn(1000)),
+		ShortReads:   Pick(g, 0, 0, 0, 0, 1, 7, 8),
 		SensStep:     -1,
 	}
 	switch g.Intn(3) {
@@ -253,7 +255,13 @@ type c12Reader struct {
 	buf    []byte
 }
 
+// c12MaxRead: an io.Reader may return fewer bytes than asked for; the run's knob says how few.
+var c12MaxRead int
+
 func (r *c12Reader) Read(p []byte) (int, error) {
+	if c12MaxRead > 0 && len(p) > c12MaxRead {
+		p = p[:c12MaxRead]
+	}
 	n, err := r.src.Read(p)
 	for i := 0; i < n; i++ {
 		if r.pos+i == r.flipAt {
@@ -383,6 +391,7 @@ type c12Emission struct {
 	dest     string // location the statement says the message is for
 	wireURL  string // redirect binding: the URL handed to the browser
 	wireHTML string // POST binding: the HTML handed to the browser
+	rawHTML  []byte // the very slice the SP returned (not copied): must still read the same at the end of the run
 	givenID  string // ID the API exposed to the caller ("" if it did not)
 	expectRS string
 	rsKnown  bool // false: the relay state is the middleware's own random index (read from its tracking cookie)
@@ -579,6 +588,7 @@ func (w *c12World) emit(st c12Step, rd *c12Reader) *c12Emission {
 	}
 	if html != nil {
 		em.wireHTML = string(html)
+		em.rawHTML = html
 	}
 	em.site = c12MsgSite(em.msg, em.binding)
 	if em.binding == "post" && c12SubmitValue(em.expectRS) != em.expectRS {
@@ -1112,9 +1122,23 @@ func execSPEgress(t *testing.T, p *Plan) *Result {
 	res := newResult()
 	k := decode[c12Knobs](p.Knobs)
 	installRand(p)
+	c12MaxRead = k.ShortReads
+	defer func() { c12MaxRead = 0 }()
+	if k.ShortReads > 0 {
+		res.fire("rand:short-reads")
+	}
 	rd := c12Stream(p, 1, 0, -1)
 	saml.RandReader = rd
 	w := c12BuildWorld(k)
+	var handedOut []*c12Emission // every POST form the SP returned, kept alive while later messages are created
+	defer func() {
+		for _, em := range handedOut {
+			if res.Violation == nil && string(em.rawHTML) != em.wireHTML {
+				res.logf("a POST form returned earlier changed after later messages were created (%s)", em.site)
+				res.violate(0, "not-recoverable", "C12/"+em.site+"/returned-form-changed-later", "the bytes handed to the caller stay what they were", "altered by a later message creation", "")
+			}
+		}
+	}()
 	steps := make([]c12Step, len(p.Steps))
 	for i, raw := range p.Steps {
 		steps[i] = decode[c12Step](raw)
@@ -1136,6 +1160,9 @@ func execSPEgress(t *testing.T, p *Plan) *Result {
 		}
 		start := rd.pos
 		em := w.emit(st, rd)
+		if em.rawHTML != nil {
+			handedOut = append(handedOut, em)
+		}
 		if em.pan != nil {
 			res.logf("step %d %s: PANIC in the SP", si, st.Kind)
 			res.Excluded = "panic (reported under C09)"
